@@ -947,7 +947,7 @@ func SexpToGoStructs(
 				}
 				//vv("have reflect.Map: target has type = '%T', value='%#v'; targTyp='%v' targKind='%v' targElemTyp='%v' targElemKind='%v' mapElemTyp='%v' mapElemKind='%v' mapKeyTyp='%v' mapKeyKind='%v'", target, target, targTyp, targKind, targElemTyp, targElemKind, mapElemTyp, mapElemKind, mapKeyTyp, mapKeyKind)
 			}
-			panic(fmt.Sprintf("not done here yet, target has type = '%T', value='%#v'; targTyp='%v' targKind='%v' targElemTyp='%v' targElemKind='%v'", target, target, targTyp, targKind, targElemTyp, targElemKind))
+			panic(fmt.Sprintf("not done here yet, target has type = '%T'; targTyp='%v' targKind='%v' targElemTyp='%v' targElemKind='%v'", target, targTyp, targKind, targElemTyp, targElemKind))
 
 			// TODO: don't try to translate into a Go struct,
 			// but instead... what? just a map[string]interface{}
@@ -1049,7 +1049,7 @@ func SexpToGoStructs(
 					recordKey = k.name
 				default:
 					fmt.Printf(" skipping field '%#v' which we don't know how to lookup.", pair.Head)
-					panic(fmt.Sprintf("unknown fields disallowed: we didn't recognize '%#v'", pair.Head))
+					panic(fmt.Sprintf("unknown fields disallowed: we didn't recognize '%s'", pair.Head.SexpString(nil)))
 					continue
 				}
 				// We've got to match pair.Head to
@@ -1068,7 +1068,13 @@ func SexpToGoStructs(
 					//vv("upperKey = '%v' from recordKey = '%v'; found=%v; det='%#v'", upperKey, recordKey, found, det)
 					if !found {
 						fmt.Printf(" skipping field '%s' in this hash/which we could not find in the JsonTagMap", recordKey)
-						panic(fmt.Sprintf("unknown field '%s' not allowed; could not find in the JsonTagMap. Fieldnames are case sensitive. src.JstonTagMap: '%#v'", recordKey, src.JsonTagMap))
+						// name the fields there are, in order, not the map with its addresses
+						known := make([]string, 0, len(src.JsonTagMap))
+						for name := range src.JsonTagMap {
+							known = append(known, name)
+						}
+						sort.Strings(known)
+						panic(fmt.Sprintf("unknown field '%s' not allowed; could not find in the JsonTagMap. Fieldnames are case sensitive. Known fields: %v", recordKey, known))
 						continue
 					}
 				}
